@@ -120,7 +120,11 @@ func (p *Peer) Run(o *Opts, ops []string) *Outcome {
 			if p.MsgSeq > 0 {
 				p.MsgSeq--
 			}
+			ns := len(p.Sent)
 			err = p.sendKind(o, op[1:])
+			for k := ns; k < len(p.Sent); k++ {
+				p.Sent[k] = "~" + p.Sent[k] // not the message of that kind the flow has: it is in nobody's transcript
+			}
 			p.MsgSeq = seq
 			if len(p.Transcript) > tl {
 				p.Transcript = p.Transcript[:tl]
